@@ -5,7 +5,7 @@ use crate::pipe::{exec_one_at, Fail};
 use crate::run::{run_cases, Acc, Ctx};
 use crate::store::{Basic, Num, Simple, Store};
 use crate::util::{fnv_str, guarded, panic_site, Json, Rng};
-use crate::value::{construct, readback, Mk, V};
+use crate::value::{construct, construct_shared, readback, Mk, V};
 use garnish_lang_traits::{Extents, GarnishData, Instruction as I, TypeConstants};
 
 #[derive(Clone, Copy, Debug, PartialEq)]
@@ -79,13 +79,19 @@ fn is_concat(v: &V) -> bool {
 }
 
 fn check_value<D: Store + Mk>(v: &V, probe_absent: &[u64], acc: &mut Acc) {
+    check_value_built::<D>(v, probe_absent, false, acc)
+}
+
+/// `shared`: equal sub-values are built once and referenced from every place they occur
+fn check_value_built<D: Store + Mk>(v: &V, probe_absent: &[u64], shared: bool, acc: &mut Acc) {
     let items = flat(v);
     let n = items.len();
     let mix = mix_class(&items);
     let shape = if is_concat(v) { "concat" } else { "list" };
     acc.seen("mix_classes", format!("{}:{}", shape, mix));
     let mut m: Mon<D> = Mon::fresh();
-    let addr = match construct(&mut m, v) {
+    let built = if shared { construct_shared(&mut m, v, &mut std::collections::HashMap::new()) } else { construct(&mut m, v) };
+    let addr = match built {
         Ok(a) => a,
         Err(e) => {
             acc.violation(
@@ -98,6 +104,25 @@ fn check_value<D: Store + Mk>(v: &V, probe_absent: &[u64], acc: &mut Acc) {
     };
     let payload = |what: &str| Json::obj().with("store", Json::s(D::NAME)).with("value", v.json()).with("query", Json::s(what));
 
+    // ---------------- direct API of a concatenation: its item iterator yields the flat items in order
+    if is_concat(v) {
+        acc.evals += 1;
+        let ext = garnish_lang_traits::Extents::new(0.into(), i32::MAX.into());
+        let got = guarded(|| m.d.get_concatenation_iter(addr, ext).map(|it| it.take(n + 8).collect::<Vec<usize>>()));
+        let got_vals: Result<Vec<V>, String> = match got {
+            Ok(Ok(addrs)) => addrs.iter().map(|a| readback(&m.d, *a)).collect(),
+            Ok(Err(e)) => Err(format!("error: {}", e)),
+            Err((msg, loc)) => Err(format!("panic: {} at {}", msg, loc)),
+        };
+        match got_vals {
+            Ok(vals) if vals == items => {}
+            other => acc.violation(
+                format!("wrong-value|get_concatenation_iter|{}|{}", D::NAME, mix),
+                format!("[{}] get_concatenation_iter of {} yields {:?}, expected the {} flat items in order", D::NAME, v.show().chars().take(200).collect::<String>(), other.map(|x| x.iter().map(|y| y.show()).collect::<Vec<_>>()), n),
+                payload("iterate"),
+            ),
+        }
+    }
     // ---------------- direct API (lists only; concatenations have no list getters)
     if !is_concat(v) {
         acc.evals += 1;
@@ -463,13 +488,29 @@ pub fn run(ctx: &Ctx) -> (Acc, String, bool) {
             check_value::<Simple>(&v, &absent_probe, acc);
             check_value::<Basic>(&v, &absent_probe, acc);
             acc.distinct.insert(fnv_str(&v.show()));
+            if i % 5 == 0 {
+                // one list (or concatenation) referenced twice or three times from a concatenation, built once:
+                // unkeyed items only, so that the keys of the whole stay distinct
+                let n = 1 + r.below(4);
+                let part = V::List((0..n).map(|pos| item(*r.pick(&[Kind::Number, Kind::Text, Kind::NonSymPair, Kind::Nested, Kind::Unit]), pos, 0x9000 + pos as u64)).collect());
+                let part = if r.chance(1, 3) { V::Concat(Box::new(part.clone()), Box::new(V::List(vec![V::Int(77)]))) } else { part };
+                let b = |x: &V| Box::new(x.clone());
+                let sv = match r.below(3) {
+                    0 => V::Concat(b(&part), b(&part)),
+                    1 => V::Concat(Box::new(V::Concat(b(&part), b(&v))), b(&part)),
+                    _ => V::Concat(b(&part), Box::new(V::Concat(b(&part), b(&part)))),
+                };
+                acc.count("shared_part_concatenations");
+                check_value_built::<Simple>(&sv, &absent_probe, true, acc);
+                check_value_built::<Basic>(&sv, &absent_probe, true, acc);
+            }
             if i % 1009 == 0 {
                 acc.sample(Json::s(format!("random {}", v.show().chars().take(300).collect::<String>())));
             }
         }
     });
     let rule = format!(
-        "exhaustive: every list of length <= {} over 7 item kinds (number, text, symbol, pair keyed by a distinct symbol, pair keyed by a non-symbol, nested list, unit) = {} lists; random: {} lists (<= {} items) and concatenations of 2-3 lists with adversarial distinct symbol keys (congruent mod n, 0.., u64::MAX.., multiples of n, powers of two; sorted / reversed / shuffled). Each value on both stores: get_list_len, get_list_item inside and outside (n, n+1, n+7, -1, -2, i32 limits), iteration order, get_list_item_with_symbol for every present key and 5-8 absent keys, and the same queries through the Access and Apply instructions (each must leave exactly one result), plus the length through AccessLengthInternal and the item sequence through a cast to a list.",
+        "exhaustive: every list of length <= {} over 7 item kinds (number, text, symbol, pair keyed by a distinct symbol, pair keyed by a non-symbol, nested list, unit) = {} lists; random: {} lists (<= {} items) and concatenations of 2-3 lists with adversarial distinct symbol keys, every fifth case also a concatenation that references one part (built once) two or three times (congruent mod n, 0.., u64::MAX.., multiples of n, powers of two; sorted / reversed / shuffled). Each value on both stores: get_list_len, get_list_item inside and outside (n, n+1, n+7, -1, -2, i32 limits), iteration order, get_list_item_with_symbol for every present key and 5-8 absent keys, and the same queries through the Access and Apply instructions (each must leave exactly one result), plus the length through AccessLengthInternal and the item sequence through a cast to a list.",
         max_len, total_ex, random_total, ctx.pick(24, 64)
     );
     (acc, rule, false)
